@@ -15,7 +15,8 @@ Record obs08 := Obs08 {
   o8_ordered : forest;                    (* Orderer.order_config(cfg) *)
   o8_twice : forest;                      (* order_config applied to its own output *)
   o8_paths : list (list string);          (* cmd_paths of the patch *)
-  o8_meta : option ptree                  (* the patch after removing one unrelated top-level row from old and new *)
+  o8_meta : option ptree;                 (* the patch after removing one unrelated top-level row from old and new *)
+  o8_resorted : option ptree              (* the real PatchTree.sort() applied to the unsorted patch *)
 }.
 
 Definition item := (string * option ptree * skey)%type.
@@ -76,22 +77,168 @@ Definition unmentioned_stable (v : vendor) (ordering : list orule) (cfg ordered 
   let un := fun kv : string * tree => negb (mentioned v ordering (fst kv)) in
   list_str_eqb (map fst (filter un cfg)) (map fst (filter un ordered)).
 
-(* rank: a top-level command matched directly by exactly one in-scope, non-%order_reverse
-   ordering rule (and by none in reverse form) carries that rule's index *)
+(* the part of [unmentioned_stable] that holds unconditionally: unmentioned rows of the
+   same kind (commands / rows starting with the negation word) keep their relative order *)
+Definition unmentioned_stable_kind (v : vendor) (ordering : list orule) (cfg ordered : forest) : bool :=
+  forallb (fun b : bool =>
+             let sel := fun kv : string * tree =>
+                          negb (mentioned v ordering (fst kv)) &&
+                          Bool.eqb (negb (startswith (v_reverse v) (fst kv))) b in
+             list_str_eqb (map fst (filter sel cfg)) (map fst (filter sel ordered)))
+          [true; false].
+(* input class of the open finding: some row no rule mentions starts with the negation word *)
+Definition has_negated_unmentioned (v : vendor) (ordering : list orule) (cfg : forest) : bool :=
+  existsb (fun kv : string * tree =>
+             negb (mentioned v ordering (fst kv)) && startswith (v_reverse v) (fst kv)) cfg.
+
+(* rank (reference): what the first sentence of the property says about one command of a
+   level, given the ordering rules of that level.  [hit_rule]: the rule is in scope and the
+   row belongs to its language (direct or negated form).
+   - no rule mentions the row: order 0 (the exit word: +inf, i.e. last, as soon as a rule is in scope);
+   - exactly one rule, index k, mentions it: an ordinary rule gives +k to a command and -k
+     to a removal (so removals come first, mirrored); an %order_reverse rule pins a removal
+     at +k and leaves everything else at 0;
+   - several rules mention it: the best-match choice is outside the property's quantifier.
+   The "commit" pseudo-command of %force_commit inherits its rule's key and is skipped. *)
 Fixpoint index_where {A} (f : A -> bool) (l : list A) (i : nat) : list nat :=
   match l with [] => [] | x :: t => (if f x then [i] else []) ++ index_where f t (S i) end.
+
+Definition znum_eqb (a b : znum) : bool :=
+  match a, b with
+  | ZFin x, ZFin y => Z.eqb x y
+  | ZInf, ZInf => true
+  | _, _ => false
+  end.
+
+Section RankSpec.
+  Variable rmatch : string -> string -> option (list string).
+  Variable rrev : string -> string.
+  Variable block_exit : string.
+
+  Definition hit_rule (sc : option string) (row : string) (r : orule) : bool :=
+    in_scope r sc && (matches rmatch (o_pat r) row || matches rmatch (rrev (o_pat r)) row).
+  Definition is_exit_row (row : string) : bool :=
+    negb (is_empty block_exit) && String.eqb block_exit row.
+
+  (* the (order, order_direct) pair the reference allows for [row] *)
+  Definition rank_pair_ok (sc : option string) (ordering : list orule) (row : string) (n : znum) (d : bool) : bool :=
+    match index_where (hit_rule sc row) ordering 0 with
+    | [] =>
+      if is_exit_row row
+      then (if existsb (fun r => in_scope r sc) ordering then znum_eqb n ZInf && d else znum_eqb n (ZFin 0))
+      else znum_eqb n (ZFin 0)
+    | [k] =>
+      if is_exit_row row then true else
+      match nth_error ordering k with
+      | Some r =>
+        if o_rev r then (znum_eqb n (ZFin (Z.of_nat k)) && d) || znum_eqb n (ZFin 0)
+        else znum_eqb n (ZFin (Z.of_nat k))
+      | None => false
+      end
+    | _ => true
+    end.
+
+  (* the signed sort key: +order for order_direct, -order otherwise *)
+  Definition unsigned (n : znum) (d : bool) : znum :=
+    match n with ZFin z => ZFin (if d then z else Z.opp z) | ZInf => ZInf end.
+
+  Definition rank_item_ok (ordering : list orule) (i : item) : bool :=
+    let row := fst (fst i) in
+    String.eqb row "commit" ||
+    rank_pair_ok (Some "patch") ordering row (unsigned (fst (fst (snd i))) (snd (snd i))) (snd (snd i)).
+
+  Definition rank_ok_g (ordering : list orule) (p : ptree) : bool :=
+    forallb (rank_item_ok ordering) (pitems p).
+
+  (* the same reference as a function: the (order, order_direct) pair of a row of direction
+     [cd], where the rules determine it (None: several rules mention the row) *)
+  Definition ref_rank (sc : option string) (ordering : list orule) (row : string) (cd : bool)
+    : option (znum * bool) :=
+    match index_where (hit_rule sc row) ordering 0 with
+    | [] =>
+      if is_exit_row row && existsb (fun r => in_scope r sc) ordering then Some (ZInf, true)
+      else Some (ZFin 0, cd)
+    | [k] =>
+      if is_exit_row row then None else
+      match nth_error ordering k with
+      | Some r =>
+        if o_rev r
+        then (if negb cd && matches rmatch (o_pat r) row then Some (ZFin (Z.of_nat k), true) else Some (ZFin 0, cd))
+        else Some (ZFin (Z.of_nat k), cd)
+      | None => None
+      end
+    | _ => None
+    end.
+
+  (* the ordering rules a block hands to its children: the %global rules of the level and
+     the children of the one ordinary rule that mentions the block's row, in rulebook order
+     (None where the reference does not determine them) *)
+  Definition globals_of (sc : option string) (l : list orule) : list orule :=
+    filter (fun r => in_scope r sc && o_glob r) l.
+  Definition ref_children (sc : option string) (ordering : list orule) (row : string) : option (list orule) :=
+    if is_exit_row row then None else
+    match index_where (hit_rule sc row) ordering 0 with
+    | [] => Some (odict_of (globals_of sc ordering) [])
+    | [k] =>
+      match nth_error ordering k with
+      | Some r =>
+        if o_rev r then None
+        else Some (odict_of (globals_of sc (firstn k ordering) ++ (if o_glob r then [r] else []) ++
+                             o_kids r ++ globals_of sc (skipn (S k) ordering)) [])
+      | None => None
+      end
+    | _ => None
+    end.
+
+  (* rank at every depth of a patch: each block's children are ranked by the rules handed down *)
+  Fixpoint rank_ok_rec (ordering : list orule) (p : ptree) {struct p} : bool :=
+    match p with
+    | PT items =>
+      forallb (fun i : item =>
+                 rank_item_ok ordering i &&
+                 match snd (fst i) with
+                 | Some c =>
+                   String.eqb (fst (fst i)) "commit" ||
+                   match ref_children (Some "patch") ordering (fst (fst i)) with
+                   | Some rb => rank_ok_rec rb c
+                   | None => true
+                   end
+                 | None => true
+                 end) items
+    end.
+
+  (* order_config: at every depth, the rows whose key the reference determines stand in
+     the order of their reference keys ((+order | -order), direct) *)
+  Variable reverse_prefix : string.
+  Fixpoint sorted_cfg_keys (l : list (znum * bool)) : bool :=
+    match l with
+    | a :: ((b :: _) as r) => cfg_key_leb a b && sorted_cfg_keys r
+    | _ => true
+    end.
+  Definition cfg_ref_key (ordering : list orule) (row : string) : option (znum * bool) :=
+    match ref_rank None ordering row (negb (startswith reverse_prefix row)) with
+    | Some x => Some (cfg_key (fst x) (snd x))
+    | None => None
+    end.
+  Definition cfg_ref_keys (ordering : list orule) (f : forest) : list (znum * bool) :=
+    flat_map (fun kv : string * tree =>
+                match cfg_ref_key ordering (fst kv) with Some k => [k] | None => [] end) f.
+  Fixpoint cfg_rank_sorted_t (ordering : list orule) (t : tree) {struct t} : bool :=
+    match t with
+    | T kids =>
+      sorted_cfg_keys (cfg_ref_keys ordering kids) &&
+      forallb (fun kv : string * tree =>
+                 match ref_children None ordering (fst kv) with
+                 | Some rb => cfg_rank_sorted_t rb (snd kv)
+                 | None => true
+                 end) kids
+    end.
+End RankSpec.
+
 Definition rank_ok (v : vendor) (ordering : list orule) (p : ptree) : bool :=
-  forallb (fun i : item =>
-             let row := fst (fst i) in
-             let direct_hits := index_where (fun r => in_scope r (Some "patch") && matches pm (o_pat r) row) ordering 0 in
-             let rev_hits := index_where (fun r => in_scope r (Some "patch") && matches pm (prev v (o_pat r)) row) ordering 0 in
-             let any_rev_flag := existsb (fun r => o_rev r && in_scope r (Some "patch") && matches pm (o_pat r) row) ordering in
-             match direct_hits, rev_hits, any_rev_flag, snd i with
-             | [k], [], false, (n, _, d) =>
-               (* the "commit" pseudo-command of %force_commit inherits its rule's key *)
-               String.eqb row "commit" || negb d || match n with ZFin z => Z.eqb z (Z.of_nat k) | ZInf => String.eqb row (v_exit v) end
-             | _, _, _, _ => true
-             end) (pitems p).
+  rank_ok_rec pm (prev v) (v_exit v) ordering p.
+Definition cfg_rank_sorted (v : vendor) (ordering : list orule) (f : forest) : bool :=
+  cfg_rank_sorted_t pm (prev v) (v_exit v) (v_reverse v) ordering (T f).
 
 Definition with_patches (o : obs08) (f : ptree -> ptree -> bool) : bool :=
   match o8_sorted o, o8_unsorted o with
@@ -107,15 +254,157 @@ Definition c8_cfg_perm (o : obs08) := unordered_eqb (o8_ordered o) (o8_cfg o).
 Definition c8_cfg_idem (o : obs08) := forest_eqb (o8_twice o) (o8_ordered o).
 Definition c8_cfg_unmentioned (o : obs08) :=
   unmentioned_stable (o8_vendor o) (o8_ordering o) (o8_cfg o) (o8_ordered o).
+Definition c8_cfg_unmentioned_kind (o : obs08) :=
+  unmentioned_stable_kind (o8_vendor o) (o8_ordering o) (o8_cfg o) (o8_ordered o).
+Definition c8_neg_unmentioned (o : obs08) :=
+  has_negated_unmentioned (o8_vendor o) (o8_ordering o) (o8_cfg o).
+Definition c8_cfg_rank (o : obs08) := cfg_rank_sorted (o8_vendor o) (o8_ordering o) (o8_ordered o).
+(* PatchTree.sort itself (stable, recursive), applied to the fully unsorted patch *)
+Definition c8_resort (o : obs08) :=
+  match o8_resorted o, o8_unsorted o with
+  | Some r, Some u => sorted_ok r && is_stable_sort_of r u
+  | None, None => true
+  | _, _ => false
+  end.
 Definition c8_meta (o : obs08) :=
   match o8_meta o, o8_sorted o with
   | Some m, Some s => subseq (all_paths [] m) (all_paths [] s)
   | _, _ => true
   end.
 
+(* the part of [c8_meta] that holds unconditionally: the smaller patch is sorted at every
+   level and its paths are among those of the full patch -- so any difference in relative
+   order is between commands whose sort keys tie (their order is the diff's, see the open
+   finding about base_diff's positional indices) *)
+Definition sub_multiset (a b : list (list string)) : bool :=
+  forallb (fun x => Nat.leb (count_path x a) (count_path x b)) a.
+Definition c8_meta_weak (o : obs08) :=
+  match o8_meta o, o8_sorted o with
+  | Some m, Some s => sorted_ok m && sub_multiset (all_paths [] m) (all_paths [] s)
+  | _, _ => true
+  end.
+
 Definition P_C08 (o : obs08) : bool :=
   c8_sorted o && c8_stable_sort_of o && c8_multiset o && c8_rank o &&
-  c8_cfg_perm o && c8_cfg_idem o && c8_cfg_unmentioned o && c8_meta o.
+  c8_cfg_perm o && c8_cfg_idem o && c8_cfg_unmentioned o && c8_cfg_unmentioned_kind o && c8_cfg_rank o && c8_resort o && c8_meta o && c8_meta_weak o.
 
 Definition agree_order_config (o : obs08) : bool :=
   forest_eqb (p_order_config (o8_vendor o) (o8_ordering o) (o8_cfg o)) (o8_ordered o).
+
+(* ---------- the unsorted patch: make_patch with PatchTree.sort() taken out ----------
+   [patch_items] is the list make_patch builds before tree.sort(); Model.Patch.patch_level
+   is, by conversion, "sort_items of patch_items" (OrderProofs.patch_level_items). *)
+Section Unsorted.
+  Variable rmatch : string -> string -> option (list string).
+  Variable rsrc : string -> string.
+  Variable rrev : string -> string.
+  Variable block_exit : string.
+  Variable rreverse : string -> list string -> string.
+
+  Definition yield_step (ordering : list orule) (raw : string) (a : attrs)
+             (acc2 : option (list item)) (y : bool * string * option (ckpre * bool)) : option (list item) :=
+    let '(direct, row, sub) := y in
+    match acc2 with
+    | None => None
+    | Some out2 =>
+      let '(order, odirect, ord') := get_order rmatch rsrc rrev block_exit ordering row direct (Some "patch") in
+      let children :=
+          match sub with
+          | Some (ch, true) => ch ord'
+          | _ => POk (PT [])
+          end in
+      match children with
+      | PErr => None
+      | POk ct =>
+        let sk : skey := (match order with ZFin z => ZFin (if odirect then z else Z.opp z) | ZInf => ZInf end,
+                          raw, odirect) in
+        let leaf := (match pitems ct with [] => negb (a_parent a) | _ => false end) || negb direct in
+        let it := if leaf then (row, None, sk) else (row, Some ct, sk) in
+        Some (out2 ++ it :: (if a_force_commit a then [("commit", None, sk)] else []))
+      end
+    end.
+
+  Definition group_step (ordering : list orule) (acc : option (list item))
+             (e : string * attrs * list string * list citem) : option (list item) :=
+    let '(raw, a, key, its) := e in
+    match acc with
+    | None => None
+    | Some out =>
+      match run_logic rreverse (a_pat a) key (a_logic a) its with
+      | None => None
+      | Some ys => fold_left (yield_step ordering raw a) ys (Some out)
+      end
+    end.
+
+  Definition flat_groups (groups : list (string * attrs * list (list string * list citem)))
+    : list (string * attrs * list string * list citem) :=
+    flat_map (fun g => let '(raw, a, ks) := g in map (fun k => (raw, a, fst k, snd k)) ks) groups.
+
+  Definition patch_items (groups : list (string * attrs * list (list string * list citem)))
+             (ordering : list orule) : option (list item) :=
+    fold_left (group_step ordering) (flat_groups groups) (Some []).
+
+  Definition patch_level_u (groups : list (string * attrs * list (list string * list citem)))
+             (ordering : list orule) : presult :=
+    match patch_items groups ordering with
+    | None => PErr
+    | Some out => POk (PT out)
+    end.
+
+  Definition close_groups (mk : pre -> ckpre) (groups : list pgroup)
+    : list (string * attrs * list (list string * list citem)) :=
+    map (fun g : pgroup =>
+           let '(raw, a, ks) := g in
+           (raw, a, map (fun k : list string * list pitem =>
+                           (fst k, map (fun it : pitem =>
+                                          let '(o, row, ch) := it in
+                                          (o, row, mk ch,
+                                           match pgroups ch with [] => false | _ => true end)) (snd k))) ks))
+        groups.
+
+  Fixpoint make_patch_u (p : pre) : list orule -> presult :=
+    match p with
+    | Pre groups =>
+      patch_level_u
+        (map (fun g : pgroup =>
+                let '(raw, a, ks) := g in
+                (raw, a, map (fun k : list string * list pitem =>
+                                (fst k, map (fun it : pitem =>
+                                               let '(o, row, ch) := it in
+                                               (o, row, make_patch_u ch,
+                                                match pgroups ch with [] => false | _ => true end)) (snd k))) ks))
+             groups)
+    end.
+End Unsorted.
+
+Definition p_make_patch_u (v : vendor) (ordering : list orule) (p : pre) : presult :=
+  make_patch_u pm psrc (prev v) (v_exit v) (prreverse v) p ordering.
+
+(* the unsorted patch of the model for one pipeline case *)
+Definition model_patch_unsorted (c : pcase) : presult :=
+  p_make_patch_u (pc_vendor c) (pc_ordering c) (make_pre (p_make_diff (pc_rules c) (pc_old c) (pc_new c))).
+
+Definition remove_row (r : string) (f : forest) : forest :=
+  filter (fun kv : string * tree => negb (String.eqb (fst kv) r)) f.
+
+Definition agree_unsorted (c : pcase) (o : obs08) : bool :=
+  match model_patch_unsorted c, o8_unsorted o with
+  | POk a, Some b => ptree_eqb a b
+  | PErr, None => true
+  | _, _ => false
+  end.
+
+(* all three agreements at once (the diff and pre are computed once): stage 1 of the check *)
+Definition agree_all (c : pcase) (o : obs08) : bool :=
+  let pre := make_pre (p_make_diff (pc_rules c) (pc_old c) (pc_new c)) in
+  match p_make_patch (pc_vendor c) (pc_ordering c) pre, pc_patch c with
+  | POk a, Some b => ptree_eqb a b
+  | PErr, None => true
+  | _, _ => false
+  end &&
+  match p_make_patch_u (pc_vendor c) (pc_ordering c) pre, o8_unsorted o with
+  | POk a, Some b => ptree_eqb a b
+  | PErr, None => true
+  | _, _ => false
+  end &&
+  agree_order_config o.
